@@ -238,7 +238,10 @@ pub fn raw_snapshot(start: &VfsPath, cx: &Conc, with_bytes: bool) -> Value {
         for k in kids {
             let md = md_json(cx, guard(|| k.metadata()));
             let isdir = md["k"] == "dir";
-            let mut ent = json!({"p": cx.abs_of(&k), "k": md["k"], "len": md["len"], "cr": md["cr"], "mo": md["mo"], "ac": md["ac"], "d": []});
+            // paths relative to the snapshot's start (a layer may be a sub-path of a larger filesystem)
+            let rel = &k.as_str()[start.as_str().len().min(k.as_str().len())..];
+            let relp = cx.names.abs_path(rel).unwrap_or_else(|| vec![format!("!raw:{rel}")]);
+            let mut ent = json!({"p": relp, "k": md["k"], "len": md["len"], "cr": md["cr"], "mo": md["mo"], "ac": md["ac"], "d": []});
             if !isdir && with_bytes && md["c"] == "ok" {
                 if let Ok(Ok(mut h)) = guard(|| k.open_file()) {
                     let mut b = vec![];
